@@ -9,3 +9,9 @@ import X86Model.Properties.C04
 import X86Model.Properties.C05
 import X86Model.Properties.C06
 import X86Model.Properties.C07
+import X86Model.Generated.Consts
+import X86Model.Model.Codecs
+import X86Model.Spec.ArchTable
+import X86Model.Spec.Codecs
+import X86Model.Proofs.Bits
+import X86Model.Properties.C19
